@@ -61,6 +61,7 @@ inductive Op where
   | beginShutdown
   | drain
   | observe (w : Nat)                        -- waitForTxn goroutine consumes its waiter's outcome
+  | abandon (w : Nat)                        -- a WaitForReceipt caller's context ended: it stops reading its channel
   deriving Repr, DecidableEq
 
 inductive Out where
@@ -119,6 +120,7 @@ def step (s : St) : Op → St × Out
       -- the deferred drain walks the table: closed to every waiter, close the channel; then empties it
       let s' := s.keys.foldl (fun st k => notify st k.1 k.2 .closed 0) s
       ({ s' with rows := fun _ _ => [], drained := true }, .none)
+  | .abandon _ => (s, .none)                  -- the channel stays in its row; delivery to it must not block anybody
   | .observe w =>
     match s.info w, s.delivered.find? (fun d => d.1 = w) with
     | some i, some (_, o) =>
